@@ -683,3 +683,11 @@ M("m132", "C02", "R2.7", SOLVER, "        self.gamma = jnp.array(self.config.gam
   "discount factor silently capped")
 M("m133", "C20", "R20.13", "src/mdpax/utils/batch_processing.py", "        max_batch_size: int = 1024,\n        pmap_device_count: Int[Array, \"\"] = None,", "        max_batch_size: int = 1024,\n        pmap_device_count: Int[Array, \"\"] = None,\n        _cache: dict = {},",
   "mutable default argument (positive example of the zero-count rule)")
+M("m134", "C20", "R20.5", RVI, "        self.convergence_format = get_convergence_format(float(self.conv_threshold))", "        self.convergence_format = get_convergence_format(self.conv_threshold)",
+  "threshold passed to the formatter without float(): TypeError for an integer epsilon (seeded C20e)")
+M("m135", "C17", "R17.1", PROBLEM, "        R = jnp.sum(probs * rewards, axis=-1)  # [S, A]", "        R = jnp.sum(probs * rewards, axis=-1, dtype=rewards.dtype)  # [S, A]",
+  "expected reward accumulated in the dtype of the rewards: integer rewards truncate the expectation (seeded C17e)")
+M2("m136", "C19", "R19.5", [
+    (SPACES, "from jaxtyping import Array\n", "from jaxtyping import Array\n\n_SEEN: list = []\n", None),
+    (SPACES, "    return space, index_fn", "    _SEEN.append(index_fn)\n    return space, _SEEN[0]", None)],
+   "index function taken from a module-level list shared between calls (positive example of the zero-count rule; seeded C19e)")
